@@ -478,6 +478,19 @@ Eval(dyn, ud, F, q2, u2, tasks, cons, felems, felems2) ==
                IN [perr |-> MV(RA, VSub(pS, VAdd(BodyP(c.b1), rP)))[i],
                    verr |-> MV(RA, dv)[i],
                    aerr |-> MV(RA, VSub(da, VScale(R(2), Cross(A.w, dv))))[i]]
+          [] c.type = "noslip" ->
+               \* NoSlip1D: contact point P (station st) and direction n fixed in case body b1; the material points of bodies b2 and b3 now at P
+               \* must have no relative velocity along n.  As the library documents it, with velocities and accelerations measured in the
+               \* Ancestor frame c.anc:  verr = (v_AP1 - v_AP0) . n,  aerr = (a_AP1 - a_AP0 - w_AC x (v_AP1 - v_AP0)) . n
+               LET C == BodyK(K, c.b1)  B0 == BodyK(K, c.b2)  B1 == BodyK(K, c.b3)  A == BodyK(K, c.anc)
+                   n == MV(BodyR(c.b1), AxisV(c.n))
+                   pP == VAdd(BodyP(c.b1), MV(BodyR(c.b1), VI(c.st[1], c.st[2], c.st[3])))
+                   r0 == VSub(pP, BodyP(c.b2))  r1 == VSub(pP, BodyP(c.b3))
+                   dv == VSub(VAdd(B1.v, Cross(B1.w, r1)), VAdd(B0.v, Cross(B0.w, r0)))
+                   da == VSub(VAdd(B1.a, VAdd(Cross(B1.aw, r1), Cross(B1.w, Cross(B1.w, r1)))),
+                              VAdd(B0.a, VAdd(Cross(B0.aw, r0), Cross(B0.w, Cross(B0.w, r0)))))
+                   \* two material points at the same place: in A their accelerations differ by da - 2 w_A x dv; and w_AC = w_C - w_A
+               IN [perr |-> Zero, verr |-> Dot(dv, n), aerr |-> Dot(VSub(da, Cross(VAdd(A.w, C.w), dv)), n)]
           [] c.type = "ccoord" ->      \* ConstantCoordinate on a translational coordinate k (whose rate is speed k): perr = q - s
                [perr |-> R(q[c.b1][c.k].k - c.s), verr |-> R(uu[c.b1][c.k]), aerr |-> R(udd[c.b1][c.k])]
           [] c.type = "cacc" ->        \* ConstantAcceleration (acceleration-only): aerr = udot - s
